@@ -46,8 +46,8 @@ VerdictPm ==
       c1 == ChordSq8(Ev.p1, Ev.q1)
       c2 == ChordSq8(Ev.p2, Ev.q2)
   IN Viol("WITNESS", IsUnit(Ev.p1) /\ IsUnit(Ev.q1) /\ IsUnit(Ev.p2) /\ IsUnit(Ev.q2))
-\cup Viol("PROPER_MOTION_LINEAR", Le(Abs(Sub(c2, MulInt(c1, 4))), Add(Mul(Dec(8, 3), c1), Dec(1, 6))))
-\cup Viol("PROPER_MOTION_SIZE", Le(Abs(Sub(c1, e2)), Add(Mul(Dec(8, 3), e2), Dec(1, 6))))
+\cup Viol("PROPER_MOTION_LINEAR", Le(Abs(Sub(c2, MulInt(c1, 4))), Add(Mul(Dec(16, 2), c1), Dec(1, 6))))      \* 4 % of the doubled displacement (squared: 4 x 4 %)
+\cup Viol("PROPER_MOTION_SIZE", Le(Abs(Sub(c1, e2)), Add(Mul(Dec(8, 2), e2), Dec(1, 6))))
 
 VerdictNc == Viol("WITNESS", IsUnit(Ev.un) /\ IsUnit(Ev.uf)) \cup
              (IF Ev.oc # "ok" THEN {"NEWCOMB_TOTAL"} ELSE Viol("NEWCOMB_NEAR_FK5", Deg(Ev.un, Ev.uf, 5, 3)))
